@@ -43,6 +43,11 @@ def case_strategy(draw, big=False):
             o['p2'] = [float(a - b) for a, b in zip(o['p2'], v)]
             case['xforms'].append({'kind': 'translate', 'key': float(k0 + n), 'v': v, 'tag': o['_tag']})
         case['_info'] = dict(case.get('_info') or {}, assembled=True)
+    elif draw(st.integers(0, 1)) == 0:
+        # junctions that hold within the matching tolerance only (some of the joined ends share the same slightly
+        # different numbers)
+        if draw(gen.jitter_ends(case, prob=0.1, group_prob=0.85)):
+            case['_info'] = dict(case.get('_info') or {}, jittered=True)
     return case
 
 
@@ -104,6 +109,8 @@ def check(case):
         nt = True
     if any(x.get('tag') is not None for x in case.get('xforms') or []):
         labels.append('assembled-by-translation')
+    if (case.get('_info') or {}).get('jittered'):
+        labels.append('junctions-within-tolerance')
     fails = []
     cur = np.asarray(m.current)
     imax = float(np.abs(cur).max()) or 1.0
